@@ -285,7 +285,7 @@ def mk_orderbook(D, name, node, tg, orders, full_exec=False, capa_sym=False, wac
     return eao.assets.OrderBook(name=name, nodes=node, orders=od, full_exec=full_exec, wacc=wacc)
 
 
-def pf_orderbook(D, T=3, orders=((0, 2, 2.0), (1, 3, -1.5), (1, 2, 1.0)), full_exec=False, storage=True, wacc=False, ob_last=False, freq='h'):
+def pf_orderbook(D, T=3, orders=((0, 2, 2.0), (1, 3, -1.5), (1, 2, 1.0)), full_exec=False, storage=True, wacc=False, ob_last=False, freq='h', late_companion=False):
     eao = lift.import_eao()
     tg = grid(T, freq)
     (nA,) = nodes('A')
@@ -294,7 +294,10 @@ def pf_orderbook(D, T=3, orders=((0, 2, 2.0), (1, 3, -1.5), (1, 2, 1.0)), full_e
     assets = [ob, mk_market(D, 'mkt', nA, T, 'p', wacc=w)]
     if storage:
         assets.append(mk_storage(D, 'sto', nA, eff=None, costs=False, inflow=False, wacc=w))
-    if ob_last:
+    if late_companion:
+        # an asset with its own window and discount rate, handled right before the order book
+        assets.append(mk_market(D, 'late', nA, T, 'p', wacc=D('wacc_late', lo=0), win=(1, 2), tg=tg))
+    if ob_last or late_companion:
         assets = assets[1:] + assets[:1]
     pf = eao.portfolio.Portfolio(assets)
     return Shape(pf, tg, prices_for(D, ['p'], T))
